@@ -20,7 +20,7 @@ BOUNDS = {"graphs": "7 derivation graphs with <=3 nodes", "native": "native/c16_
 
 
 def tasks(tier):
-    return _core.defns_tasks() + _core.defns_history_tasks() + _core.guard_tasks() + _core.register_frame_tasks() + _core.unregister_frame_tasks() + _core.copy_variant_tasks() + _core.compile_tasks() + _core.compile_parent_tasks() + _core.lock_tasks() + _core.update_tasks()
+    return _core.signature_tasks() + _core.defns_tasks() + _core.defns_history_tasks() + _core.guard_tasks() + _core.register_frame_tasks() + _core.unregister_frame_tasks() + _core.copy_variant_tasks() + _core.compile_tasks() + _core.compile_parent_tasks() + _core.lock_tasks() + _core.update_tasks()
 
 
 def conformance(tier):
